@@ -279,13 +279,45 @@ static std::string opRun(const vh::Case& c) {
 	return vh::JObj().str("id", c.get("id")).raw("res", res).raw("log", log.done()).raw("tail", tail).done();
 }
 
+// ---- C18: non-default map load modes.  op=mapmode arch=.. kind=si|ss|sv mode=clean|only|update prior=<hexdoc> doc=<hexdoc>
+template <class M> struct ModeMap { M* m; MapLoadMode mode; };
+namespace BitSerializer {
+	template <class A, class M> void SerializeObject(A& archive, ModeMap<M>& w) { SerializeObject(archive, *w.m, w.mode); }
+}
+template <class TArchive, class M> static std::string mapModeWith(const vh::Case& c) {
+	M m;
+	SerializationOptions opt;
+	std::string out = "ok", what;
+	try {
+		LoadObject<TArchive>(m, c.bytes("prior"), opt);
+		std::string mode = c.get("mode", "clean");
+		ModeMap<M> w{ &m, mode == "only" ? MapLoadMode::OnlyExistKeys : mode == "update" ? MapLoadMode::UpdateKeys : MapLoadMode::Clean };
+		if (c.get("src", "mem") == "mem") LoadObject<TArchive>(w, c.bytes("doc"), opt);
+		else { std::string d = c.bytes("doc"); vh::SlowBuf sb(d, size_t(c.geti("step", 7))); std::istream is(&sb); LoadObject<TArchive>(w, is, opt); }
+	}
+	catch (const std::exception& ex) { out = "exc"; what = ex.what(); }
+	return vh::JObj().str("id", c.get("id")).str("out", out).str("what", what.substr(0, 200)).raw("desc", mz::desc(m, kCtx)).done();
+}
+template <class TArchive> static std::string mapModeArch(const vh::Case& c) {
+	std::string kind = c.get("kind", "si");
+	if (kind == "si") return mapModeWith<TArchive, std::map<std::string, int32_t>>(c);
+	if (kind == "ss") return mapModeWith<TArchive, std::unordered_map<std::string, std::string>>(c);
+	return mapModeWith<TArchive, std::map<std::string, std::vector<int32_t>>>(c);
+}
+static std::string opMapMode(const vh::Case& c) {
+	std::string arch = c.get("arch");
+	if (arch == "json") return mapModeArch<Json::RapidJson::JsonArchive>(c);
+	if (arch == "xml") return mapModeArch<Xml::PugiXml::XmlArchive>(c);
+	return mapModeArch<MsgPack::MsgPackArchive>(c);
+}
+
 int main() {
 	std::string line;
 	while (std::getline(std::cin, line)) {
 		if (line.empty()) continue;
 		auto c = vh::Case::parse(line);
 		std::string out;
-		try { out = opRun(c); }
+		try { out = c.get("op") == "mapmode" ? opMapMode(c) : opRun(c); }
 		catch (const std::exception& ex) { out = vh::JObj().str("id", c.get("id")).str("error", std::string("driver exception: ") + ex.what()).done(); }
 		std::cout << out << "\n" << std::flush;
 	}
